@@ -314,9 +314,9 @@ func c01(r *Report, s *Sem) {
 				if c.Op != token.EQL {
 					continue
 				}
-				if cs, ok := constString(stripConv(c.Y)); ok {
+				if cs, ok := constTag(c.Y); ok {
 					tagType[cs] = n.Obj().Name()
-				} else if cs, ok := constString(stripConv(c.X)); ok {
+				} else if cs, ok := constTag(c.X); ok {
 					tagType[cs] = n.Obj().Name()
 				}
 			}
@@ -479,8 +479,21 @@ func interpretDiscriminator(fn *ssa.Function, abs map[string]int) map[string]boo
 		last := b.Instrs[len(b.Instrs)-1]
 		switch x := last.(type) {
 		case *ssa.Return:
+			// an error return: the last result is not nil
+			if len(x.Results) > 1 && isErrorType(x.Results[len(x.Results)-1].Type()) {
+				isErr := false
+				for _, l := range leaves(x.Results[len(x.Results)-1]) {
+					if !isNilConst(stripConv(l)) {
+						isErr = true
+					}
+				}
+				if isErr {
+					out["<error>"] = true
+					break
+				}
+			}
 			for _, l := range leaves(x.Results[0]) {
-				if cs, ok := constString(stripConv(l)); ok {
+				if cs, ok := constTag(l); ok {
 					if cs == "" {
 						out["<error>"] = true
 					} else {
@@ -562,8 +575,10 @@ func c01Registries(r *Report, s *Sem, R5 string) {
 	type entry struct {
 		fn  *ssa.Function
 		pos string
+		typ *types.Named // set when the product is allocated in place (a switch on the scheme instead of a table)
 	}
 	entries := map[string][]entry{}
+	switchSelected := false
 	for _, fn := range p.LimeFuncs() {
 		if fn.Name() != "init" || fn.Parent() != nil {
 			continue
@@ -579,9 +594,46 @@ func c01Registries(r *Report, s *Sem, R5 string) {
 			}
 			key, _ := constString(stripConv(mu.Key))
 			if f, ok := stripConv(mu.Value).(*ssa.Function); ok {
-				entries[key] = append(entries[key], entry{f, p.instrPos(in)})
+				entries[key] = append(entries[key], entry{f, p.instrPos(in), nil})
 			}
 		})
+	}
+	if len(entries) == 0 && authT != nil {
+		// no table: the decoder (with its helpers folded in) allocates the product on the edge `scheme == constant`
+		if dec := p.Method("Session", "populate"); dec != nil {
+			rawScheme := p.Field("rawEnvelope", "Scheme")
+			allByWire := true
+			eachInstr(dec, func(in ssa.Instruction) {
+				a, ok := in.(*ssa.Alloc)
+				if !ok {
+					return
+				}
+				nt := namedOf(a.Type())
+				if nt == nil || !types.Implements(types.NewPointer(nt), authT.Underlying().(*types.Interface)) {
+					return
+				}
+				for _, e := range mustEdges(a.Block()) {
+					for _, c := range impliedConds(ifOf(e.from), e.succ == 0) {
+						if c.Op != token.EQL {
+							continue
+						}
+						x, y := c.X, c.Y
+						if _, isC := stripConv(x).(*ssa.Const); isC {
+							x, y = y, x
+						}
+						key, isC := constString(stripConv(y))
+						if !isC || !typeIs(y.Type(), schemeT) {
+							continue
+						}
+						entries[key] = append(entries[key], entry{nil, p.instrPos(a), nt})
+						if !(readsField(x, rawScheme) || readsFieldDeep(x, rawScheme)) {
+							allByWire = false
+						}
+					}
+				}
+			})
+			switchSelected = len(entries) > 0 && allByWire
+		}
 	}
 	sc := p.LimeT.Scope()
 	for _, n := range sc.Names() {
@@ -597,12 +649,19 @@ func c01Registries(r *Report, s *Sem, R5 string) {
 		}
 		// product type's GetAuthenticationScheme returns the same constant
 		ok2, why := false, "factory product does not report this scheme"
-		for _, rl := range returnLeaves(es[0].fn, 0) {
-			a, isAlloc := stripConv(rl.v).(*ssa.Alloc)
-			if !isAlloc {
-				continue
+		var products []*types.Named
+		if es[0].typ != nil {
+			products = append(products, es[0].typ)
+		} else {
+			for _, rl := range returnLeaves(es[0].fn, 0) {
+				if a, isAlloc := stripConv(rl.v).(*ssa.Alloc); isAlloc {
+					if nt := namedOf(a.Type()); nt != nil {
+						products = append(products, nt)
+					}
+				}
 			}
-			nt := namedOf(a.Type())
+		}
+		for _, nt := range products {
 			if nt == nil || authT == nil {
 				continue
 			}
@@ -625,7 +684,7 @@ func c01Registries(r *Report, s *Sem, R5 string) {
 	// Session decoder: scheme stored from the wire field that selected the factory
 	if dec := p.Method("Session", "populate"); dec != nil {
 		rawScheme := p.Field("rawEnvelope", "Scheme")
-		okLookup := false
+		okLookup := switchSelected
 		eachInstr(dec, func(in ssa.Instruction) {
 			if lk, ok := in.(*ssa.Lookup); ok {
 				if readsField(lk.Index, rawScheme) || readsFieldDeep(lk.Index, rawScheme) {
@@ -1039,6 +1098,19 @@ func c01TextForms(r *Report, s *Sem, R6 string) {
 				}
 			}
 		})
+		if !equalSets(declared, accepted) && len(val.Params) == 1 {
+			// not a chain of comparisons (a table, a map): evaluate it on every declared constant and on a probe
+			accepted = map[string]bool{}
+			probe := "\x00not-a-declared-value"
+			for v := range declared {
+				if res, ok := p.constEval(val, []constant.Value{constant.MakeString(v)}); ok && res.Kind() == constant.String && constant.StringVal(res) == nilSentinel {
+					accepted[v] = true
+				}
+			}
+			if res, ok := p.constEval(val, []constant.Value{constant.MakeString(probe)}); ok && res.Kind() == constant.String && constant.StringVal(res) == nilSentinel {
+				accepted[probe] = true
+			}
+		}
 		r.Check(R6, "type "+et+" / Validate accepts exactly the declared constants", p.pos(val.Pos()), equalSets(declared, accepted),
 			fmt.Sprintf("declared %v, accepted %v", sortedKeys(declared), sortedKeys(accepted)))
 		for _, m := range []*ssa.Function{mt, ut} {
@@ -1457,4 +1529,16 @@ func lenArg(v ssa.Value) ssa.Value {
 		return call.Call.Args[0]
 	}
 	return nil
+}
+
+// constTag: a kind tag as a constant — a string, or an integer of a private enum (rendered "#n").
+func constTag(v ssa.Value) (string, bool) {
+	v = stripConv(v)
+	if cs, ok := constString(v); ok {
+		return cs, true
+	}
+	if k, ok := constInt(v); ok {
+		return fmt.Sprintf("#%d", k), true
+	}
+	return "", false
 }
